@@ -975,6 +975,11 @@ def attr_path(t: Term) -> str | None:
 
 
 def ends_with_attrs(t: Term, *names: str) -> bool:
+    """``t`` is `<anything>.n1.n2...`; a value that is that attribute path or None
+    (`x = None if c is None else c.n1.n2`) counts as the path."""
+    if t[0] in ("phi", "ifexp"):
+        branches = [a for a in (t[1] if t[0] == "phi" else (t[2], t[3])) if a != NONE]
+        return bool(branches) and all(ends_with_attrs(a, *names) for a in branches)
     _, ns = attr_chain(t)
     return len(ns) >= len(names) and ns[-len(names):] == names
 
